@@ -263,3 +263,14 @@ CLAIMS["C15"] = {
     "note": "Trusted: symgo's model of map iteration (any permutation), z3. Native confirmation of a counterexample repeats the run 40 times, relying on Go's randomised range order.",
 }
 H("C15", "html/document", "VxH_C15_anchor_order", reach=["compared"], bounds="page 1 with 1..3 anchors, page 2 with 2 anchors (one duplicate name); every permutation of every ranged map")
+
+# ---- C16 stacking order ----
+ASSUMPTIONS["C16"] = [
+    "three sibling blocks laid out by the real pipeline, each with symbolic position (static/relative), z-index (auto or -2..2), float (none/left) and opacity (1 or 0.5); the layers of the resulting stacking context are compared with CSS 2.1 Appendix E; the order of the drawing calls inside drawStackingContext and pixel output are not covered",
+]
+CLAIMS["C16"] = {
+    "text": "For every combination of the symbolic style choices the solver-backed executor shows each box lands in the Appendix E layer it belongs to (negative z-index contexts ascending, in-flow blocks, floats, z-index 0/auto and opacity contexts in tree order, positive z-index ascending, ties in tree order).",
+    "design_ref": "DESIGN.md section 4 C16",
+    "note": "Trusted: symgo, z3.",
+}
+H("C16", "html/document", "VxH_C16_layers", reach=["laid-out"], bounds="3 sibling blocks x {static,relative} x {z-index auto,-1,0,1}; the middle one optionally floated, the outer ones optionally translucent", quick={"maxsteps": 80000000, "time": "500s", "shards": 8})
